@@ -84,7 +84,10 @@ class BlockwiseIO(Blockwise, IO):
             parent_columns = parent.operand("columns")
             proposed_columns = determine_column_projection(self, parent, dependents)
             proposed_columns = _labels_to_list(proposed_columns)
-            proposed_columns = [col for col in self.columns if col in proposed_columns]
+            # every label once: a label selects all the columns that carry it
+            proposed_columns = [
+                col for col in dict.fromkeys(self.columns) if col in proposed_columns
+            ]
             if set(proposed_columns) == set(self.columns):
                 # Already projected or nothing to do
                 return
